@@ -59,6 +59,12 @@ CLAIMED['C11'] = dict(level='proof', design='DESIGN.md section 7 (C11)',
          'idle after finishing, kept through maintenance.',
     note='Trusted: pyvc encoding; C09 contracts of the resource manager used modularly; hand lemma for the pool-wide sum.',
     technique='contract-based deductive verification: class invariant over the reservation, modular use of callee contracts, z3')
+CLAIMED['C05'] = dict(level='proof', design='DESIGN.md section 7 (C05)',
+    text='Buffer verified against its representation invariant and two-state contracts: capacity check counts every part of a '
+         'batch, items are appended at the back with their arrival time, only a prefix leaves (FIFO), each item only after a '
+         'downstream accepted exactly it and its minimum delay (up to one ulp) elapsed, level == stored parts.',
+    note='Trusted: pyvc encoding, floats as reals with abstract ulp, sorted() contract; batches not mutated while stored (rely).',
+    technique='contract-based deductive verification: class invariant, nested loop invariants, ghost counters, ghost trace, z3')
 NOT_APPLICABLE = {
     'C04': 'whole-line max-plus recurrence equality is a relational whole-history property outside contract-based '
            'verification (DESIGN.md section 8); its local timing lemmas are proved under C01/C05/C06',
